@@ -579,9 +579,6 @@ class ExcelCompiler:
                     processed_cells.add(child_address)
                     child_cell = self.cell_map[child_address]
                     if child_address in needed_cells or ':' in child_address:
-                        if child_cell.address.is_unbounded_range:
-                            # which range it stands for is part of the model
-                            needed_cells.add(child_address)
                         walk_precedents(child_cell)
                     else:
                         # trim this cell, now we will need only its value
@@ -602,8 +599,12 @@ class ExcelCompiler:
                 self.log.info(f"{addr} is not a leaf node")
 
         # 5) remove unneeded cells
-        cells_to_remove = tuple(addr for addr in self.cell_map
-                                if addr not in needed_cells)
+        # (which range an unbounded range (A:A) stands for is part of the
+        #  model: a kept formula that reads it could not be loaded without)
+        cells_to_remove = tuple(
+            addr for addr, cell in self.cell_map.items()
+            if addr not in needed_cells and
+            not cell.address.is_unbounded_range)
         for addr in cells_to_remove:
             del self.cell_map[addr]
 
